@@ -222,6 +222,15 @@ def shrink(prop, case, clause, budget=400, wall=40.0, kid=None):
     return cur, tries
 
 
+def mem_cap():
+    try:
+        import resource
+        cap = int(os.environ.get("VERIF_MEM_CAP_MB", "3072")) * 1024 * 1024
+        resource.setrlimit(resource.RLIMIT_AS, (cap, cap))
+    except (ImportError, ValueError, OSError):
+        pass
+
+
 def worker_main(argv):
     """python -m sim.worker PID SEED HASHSEED TIER START COUNT OUTFILE"""
     pid, seed, hs, tier, start, count, outfile = argv
@@ -229,12 +238,7 @@ def worker_main(argv):
     assert os.environ.get("PYTHONHASHSEED") == str(hs), "worker must be exec'd under its hash seed"
     # a runaway allocation in the code under test becomes a MemoryError inside the offending call (reported as
     # `exception:<op>:MemoryError`) instead of the kernel killing the worker; workers need about 50 MB (720 MB virtual)
-    try:
-        import resource
-        cap = int(os.environ.get("VERIF_MEM_CAP_MB", "3072")) * 1024 * 1024
-        resource.setrlimit(resource.RLIMIT_AS, (cap, cap))
-    except (ImportError, ValueError, OSError):
-        pass
+    mem_cap()
     import pyformlang
     repo = os.environ.get("VERIF_REPO", "/repo")
     assert os.path.realpath(pyformlang.__file__).startswith(os.path.realpath(repo) + "/"), pyformlang.__file__
